@@ -25,6 +25,8 @@ type runModel struct {
 	cfgLoop    *ast.RangeStmt // over <interface config>.Configs, inside ifaceLoop
 	fileLoop   *ast.RangeStmt // over fileMap
 	ifaceVar   types.Object   // range value of ifaceLoop
+	ifaceVars  map[types.Object]bool // range values of every loop over ParsePackages' result
+	cfgBody    *ast.BlockStmt // body of the loop over <interface config>.Configs (range or index form)
 
 	// the missing-map bookkeeping may live in functions of the package that Run calls once:
 	// their parameters (and receiver) are read as the expressions Run passes
@@ -183,9 +185,21 @@ func newRunModel(r *Repo) *runModel {
 					m.regLoop = x
 				}
 			case strings.Contains(cx, ".ParsePackages<(internal.Parser).ParsePackages>(") && strings.HasSuffix(cx, "#0"):
-				m.ifaceLoop = x
+				// (there may be more than one loop over the parsed interfaces; the main one holds the Configs loop)
 				if v, ok := x.Value.(*ast.Ident); ok {
-					m.ifaceVar = m.info.Defs[v]
+					if m.ifaceVars == nil {
+						m.ifaceVars = map[types.Object]bool{}
+					}
+					m.ifaceVars[m.info.Defs[v]] = true
+				}
+				if _, body := cfgLoopIn(m.info, x.Body); body != nil || m.ifaceLoop == nil {
+					m.ifaceLoop = x
+					if v, ok := x.Value.(*ast.Ident); ok {
+						m.ifaceVar = m.info.Defs[v]
+					}
+					if body != nil {
+						m.cfgBody = body
+					}
 				}
 			case typeIs(t, "[]*config.Config") && m.ifaceLoop != nil && m.cfgLoop == nil && x.Pos() > m.ifaceLoop.Pos() && x.End() <= m.ifaceLoop.End():
 				m.cfgLoop = x
@@ -215,4 +229,29 @@ func findRange(info *types.Info, fc *fcanon, fd *ast.FuncDecl, pred func(rs *ast
 		return true
 	})
 	return out
+}
+
+// cfgLoopIn finds, inside n, the loop over a []*config.Config (range form or index form) and returns it with its body.
+func cfgLoopIn(info *types.Info, n ast.Node) (ast.Stmt, *ast.BlockStmt) {
+	var st ast.Stmt
+	var body *ast.BlockStmt
+	ast.Inspect(n, func(x ast.Node) bool {
+		if st != nil {
+			return false
+		}
+		switch y := x.(type) {
+		case *ast.RangeStmt:
+			if typeIs(info.TypeOf(y.X), "[]*config.Config") {
+				st, body = y, y.Body
+			}
+		case *ast.ForStmt:
+			if _, bound, b, ok := indexLoop(info, y); ok {
+				if call, ok := ast.Unparen(bound).(*ast.CallExpr); ok && len(call.Args) == 1 && calleeName(info, call) == "builtin.len" && typeIs(info.TypeOf(call.Args[0]), "[]*config.Config") {
+					st, body = y, b
+				}
+			}
+		}
+		return true
+	})
+	return st, body
 }
